@@ -7,10 +7,6 @@ def obligations(tier):
                   bounds="<= %d buffered bytes (all byte values), body allocation <= 8 bytes, limits/lengths fully symbolic 64-bit" % nm)
     obs.append(dict(name="chunk-header-stage", entry="h_chunkhdr", defs=["NMAX=%d" % nm], replace=["callback_readdata:stub_readdata"],
                     claim="callback_chunkedheader on any buffered bytes, any status, any limits: no access outside the buffered data, no reachable assertion failure, at most one user callback / wait / hand-over; a data chunk is handed to the data stage only if chunk+CRLF fits the remaining limit", **common))
-    obs.append(dict(name="chunk-header-stage-known-ws-overread", entry="h_chunkhdr", defs=["NMAX=%d" % nm], replace=["callback_readdata:stub_readdata"], kf_demo="http_chunkhdr_leading_ws",
-                    claim="[demonstrates known finding http_chunkhdr_leading_ws]", **common))
-    obs.append(dict(name="chunk-header-stage-known-crlf-limit", entry="h_chunkhdr", defs=["NMAX=%d" % nm], replace=["callback_readdata:stub_readdata"], kf_demo="http_chunk_crlf_vs_limit",
-                    claim="[demonstrates known finding http_chunk_crlf_vs_limit]", **common))
     obs.append(dict(name="body-data-stage", entry="h_readdata", defs=["NMAX=%d" % nm], replace=["callback_chunkedheader:stub_chunkhdr"],
                     claim="callback_readdata from any state satisfying its precondition (remaining read fits the limit): body accumulation stays inside the allocation (capped realloc), no assertion failure, waits for min(remaining, 1 MiB), at most one callback / wait / hand-over", **common))
     obs.append(dict(name="toeof-and-content-length-stages", entry="h_toeof_gotclen", defs=["NMAX=%d" % nm], replace=["callback_readdata:stub_readdata"],
